@@ -30,6 +30,10 @@ pub struct Scn {
     /// configured encoding of the invocation: "utf-8" or "windows-1252" (files without BOM)
     #[serde(default)]
     pub encoding: String,
+    /// run the path-based invocations with one worker thread (all files pass through the same
+    /// worker, in order)
+    #[serde(default)]
+    pub one_thread: bool,
 }
 
 fn enc_of(scn_encoding: &str) -> &'static encoding_rs::Encoding {
@@ -285,7 +289,8 @@ impl Prop for C16Prop {
             }
         }
         let mut c = Case::text("scn", String::new(), cfg);
-        c.extra = serde_json::to_value(Scn { files, form, encoding }).unwrap();
+        let one_thread = t.chance(1, 3);
+        c.extra = serde_json::to_value(Scn { files, form, encoding, one_thread }).unwrap();
         Some(c)
     }
     fn hang_limit(&self, _case: &Case) -> Option<u64> {
@@ -304,6 +309,7 @@ impl Prop for C16Prop {
         }
         let bytes_of = |f: &FileSpec| bytes_of_enc(f, enc);
         let expected = |f: &FileSpec, cfg: &Cfg| expected_enc(f, cfg, enc);
+        let env: Vec<(&str, String)> = if scn.one_thread { vec![("RAYON_NUM_THREADS", "1".to_string())] } else { vec![] };
         let main = &scn.files[0];
         let fail = |clause: &str, msg: String| Outcome::Fail(Failure::new(clause, msg).fact(format!("form:{}", scn.form)));
 
@@ -380,7 +386,7 @@ impl Prop for C16Prop {
         let mut args = cfg_args.clone();
         args.push("--mode=check".into());
         args.extend(path_args.clone());
-        let d = cli::run_pasfmt(&args, &sc.dir, None, &[]);
+        let d = cli::run_pasfmt(&args, &sc.dir, None, &env);
         let want_ok = all_formatted && !any_fail;
         if d.ok() != want_ok {
             return fail(
@@ -401,7 +407,7 @@ impl Prop for C16Prop {
         let mut args = cfg_args.clone();
         args.push("--mode=stdout".into());
         args.extend(path_args.clone());
-        let e = cli::run_pasfmt(&args, &sc.dir, None, &[]);
+        let e = cli::run_pasfmt(&args, &sc.dir, None, &env);
         if e.ok() == any_fail {
             return fail("stdout-exit", format!("stdout mode exits {:?} with failing file present = {any_fail}", e.code));
         }
@@ -432,7 +438,7 @@ impl Prop for C16Prop {
         // F. files mode
         let mut args = cfg_args.clone();
         args.extend(path_args.clone());
-        let f_run = cli::run_pasfmt(&args, &sc.dir, None, &[]);
+        let f_run = cli::run_pasfmt(&args, &sc.dir, None, &env);
         if f_run.ok() == any_fail {
             return fail(
                 "files-exit",
@@ -476,7 +482,7 @@ impl Prop for C16Prop {
                 cli::age(&sc.path(&f.path));
             }
         }
-        let g = cli::run_pasfmt(&args, &sc.dir, None, &[]);
+        let g = cli::run_pasfmt(&args, &sc.dir, None, &env);
         let _ = g;
         for f in &scn.files {
             if f.kind != "missing" && cli::mtime(&sc.path(&f.path)) != Some(old) {
@@ -487,6 +493,7 @@ impl Prop for C16Prop {
             }
         }
         ctx.class(&format!("form:{}", scn.form));
+        ctx.class_if(scn.one_thread, "one-worker-thread");
         ctx.class_if(scn.files.iter().any(|f| !f.path.starts_with("src/")), "has-root-level-name(#, blank, ;, !, @, ~)");
         ctx.class_if(scn.files.iter().any(|f| f.path.contains("badbig")), "has-large-malformed-file");
         ctx.class_if(any_fail, "has-failing-file");
